@@ -208,3 +208,15 @@ add(Scenario("socks-max1-AAB", _proxy_kw(SOCKS, max_connections=1), [c("r1", SA 
 # connecting connection will multiplex and the guess comes true ---------------------------------
 add(Scenario("h2-alpn-max1-AAB", dict(max_connections=1, http2=True), [c("r1", SA + "/1"), c("r2", SA + "/2"), c("r3", "https://b.test/3")], world=world_h2, enc={"h2_origins": [0, 1]}, skip=H2SKIP + ("cancel-scope",)))
 add(Scenario("h2-alpn-max2-AAAB", dict(max_connections=2, http2=True), [c("r1", SA + "/1"), c("r2", SA + "/2"), c("r3", SA + "/3"), c("r4", "https://b.test/4")], world=world_h2, enc={"h2_origins": [0, 1]}, skip=H2SKIP + ("cancel-scope",)))
+
+
+# ---- HTTPS proxy and origins sharing ONE SSLContext object (the hop to the proxy must still
+# offer http/1.1 only, whatever another connection has configured meanwhile) ---------------------
+def _shared_ctx_kw():
+    from .simnet import FakeSSLContext
+
+    ctx = FakeSSLContext("shared")
+    return dict(proxy=httpcore.Proxy("https://proxy.test:8443", ssl_context=ctx), ssl_context=ctx, http2=True, max_connections=2)
+
+
+add(Scenario("stun-sharedctx-max2-AB", _shared_ctx_kw(), [c("r1", SA + "/1"), c("r2", "https://b.test/2")], world=world_proxy, enc={"proxy_origin": "https://proxy.test:8443"}, skip=PXSKIP + ("cancel-scope", "fault", "late", "late+fault")))
